@@ -20,6 +20,9 @@ bxor = z3.Function("bxor", IntS, IntS, IntS)
 # ideal hash: 32-byte strings, injective (A-HASH); injectivity is instantiated pairwise by the engine
 keccak = z3.Function("keccak", SeqI, SeqI)
 
+# left inverse of the ideal hash: unkeccak(keccak(x)) = x (added by the engine for every keccak term it creates)
+unkeccak = z3.Function("unkeccak", SeqI, SeqI)
+
 # big-endian integer of a byte string (eth_utils.to_int)
 to_int = z3.Function("to_int", SeqI, IntS)
 
